@@ -345,44 +345,45 @@ func (v *FnView) bceClass(nd ast.Node) (string, string) {
 // audited unproven bounds checks on unrecovered paths: "function|expression" -> why the index is in range.
 // Every entry was confirmed by reading the producer of the indexed value.
 var c11BoundsAudit = map[string]string{
-	"utils.SortByPower|powers[indices[i]]":                 "indices holds 0..len(powers)-1 (filled by the loop above); sort.Slice passes i, j < len(indices)",
-	"utils.SortByPower|powers[indices[j]]":                 "as above",
-	"utils.SortByPower|operatorAddrs[indices[i]]":          "the three slices are built in lockstep by the only caller (dogfood EndBlock: one key and one power per active operator)",
-	"utils.SortByPower|operatorAddrs[indices[j]]":          "as above",
-	"utils.SortByPower|operatorAddrs[idx]":                 "idx ranges over indices (0..n-1); the slices have equal length (lockstep)",
-	"utils.SortByPower|pubKeys[idx]":                       "as above",
-	"utils.SortByPower|powers[idx]":                        "idx < len(powers) by construction of indices",
-	"utils.SortByPower|sortedOperatorAddrs[i]":             "made with len(operatorAddrs) == len(indices)",
-	"utils.SortByPower|sortedPubKeys[i]":                   "made with len(pubKeys) == len(indices)",
-	"x/assets/keeper.Keeper.IterateAssetsForOperator|keys[1]":   "keys of the operator-asset store are written by GetJoinedStoreKey(operator, assetID): two parts",
-	"x/operator/keeper.Keeper.IterateOperatorsForAVS|keys[1]":   "keys of the USD-value store are written by GetJoinedStoreKey(avs, operator): two parts",
-	"x/dogfood/keeper.Keeper.EndBlock|powers[i]":           "GetVotePowerForChainID returns one power per operator handed in (or an error, handled before)",
-	"x/dogfood/keeper.Keeper.EndBlock|keys[i]":             "GetActiveOperatorsForChainID appends one key per active operator",
-	"x/operator/keeper.Keeper.GetActiveOperatorsForChainID|pks[i]": "GetOperatorsForChainID appends one key per operator address",
-	"x/operator/keeper.Keeper.GetOperatorsForChainID|iterator.Key()[len(prefix):]": "the iterator was opened on that prefix, every key starts with it",
-	"x/oracle/keeper/aggregator.aggregator.fillPrice|pSource.Prices[0]":   "sanityCheck rejects a source without prices before the message is aggregated or logged for replay",
-	"x/oracle/keeper/aggregator.filter.addPSource|pSource.Prices[0]":      "as above",
-	"x/oracle/keeper/aggregator.AggregatorContext.FillPrice|msg.Prices[0]": "sanityCheck rejects a message without prices",
+	"utils.SortByPower|powers[indices[i]]":                                           "indices holds 0..len(powers)-1 (filled by the loop above); sort.Slice passes i, j < len(indices)",
+	"utils.SortByPower|powers[indices[j]]":                                           "as above",
+	"utils.SortByPower|operatorAddrs[indices[i]]":                                    "the three slices are built in lockstep by the only caller (dogfood EndBlock: one key and one power per active operator)",
+	"utils.SortByPower|operatorAddrs[indices[j]]":                                    "as above",
+	"utils.SortByPower|operatorAddrs[idx]":                                           "idx ranges over indices (0..n-1); the slices have equal length (lockstep)",
+	"utils.SortByPower|pubKeys[idx]":                                                 "as above",
+	"utils.SortByPower|powers[idx]":                                                  "idx < len(powers) by construction of indices",
+	"utils.SortByPower|sortedOperatorAddrs[i]":                                       "made with len(operatorAddrs) == len(indices)",
+	"utils.SortByPower|sortedPubKeys[i]":                                             "made with len(pubKeys) == len(indices)",
+	"x/assets/keeper.Keeper.IterateAssetsForOperator|keys[1]":                        "keys of the operator-asset store are written by GetJoinedStoreKey(operator, assetID): two parts",
+	"x/operator/keeper.Keeper.IterateOperatorsForAVS|keys[1]":                        "keys of the USD-value store are written by GetJoinedStoreKey(avs, operator): two parts",
+	"x/dogfood/keeper.Keeper.EndBlock|powers[i]":                                     "GetVotePowerForChainID returns one power per operator handed in (or an error, handled before)",
+	"x/dogfood/keeper.Keeper.EndBlock|keys[i]":                                       "GetActiveOperatorsForChainID appends one key per active operator",
+	"x/operator/keeper.Keeper.GetActiveOperatorsForChainID|pks[i]":                   "GetOperatorsForChainID appends one key per operator address",
+	"x/operator/keeper.Keeper.GetOperatorsForChainID|iterator.Key()[len(prefix):]":   "the iterator was opened on that prefix, every key starts with it",
+	"x/oracle/keeper/aggregator.aggregator.fillPrice|pSource.Prices[0]":              "sanityCheck rejects a source without prices before the message is aggregated or logged for replay",
+	"x/oracle/keeper/aggregator.filter.addPSource|pSource.Prices[0]":                 "as above",
+	"x/oracle/keeper/aggregator.AggregatorContext.FillPrice|msg.Prices[0]":           "sanityCheck rejects a message without prices",
 	"x/oracle/keeper/aggregator.AggregatorContext.FillPrice|msg.Prices[0].Prices[0]": "sanityCheck rejects a source without prices",
-	"x/oracle/keeper/cache.cacheMsgs.commit|index.Index[i:]":   "i <= len(index.Index) when the pruning loop ends",
-	"x/oracle/keeper/cache.cacheParams.commit|index.Index[i:]": "i < len(index.Index) or the index is empty (i == 0) when the pruning loop ends",
-	"x/oracle/keeper/cache.cacheParams.commit|index.Index[i]":  "inside the loop i+1 < len(index.Index)",
-	"x/oracle/keeper/common.BigIntList.Median|b[l / 2]":        "called with at least one value: a report exists only after a validator submitted a price, the final median only after the threshold was exceeded",
-	"x/oracle/keeper/common.BigIntList.Median|b[l / 2 - 1]":    "even length >= 2 on this arm",
-	"x/oracle/keeper.parseBalanceChange|rawData[:32]":          "UpdateNSTByBalanceChange, the only caller, rejects len(rawData) < 32",
-	"x/oracle/keeper.parseBalanceChange|rawData[32:]":          "as above",
-	"x/oracle/types.Params.GetTokenInfo|p.Tokens[v.TokenID]":   "Params.Validate requires every feeder's TokenID to index an existing token",
+	"x/oracle/keeper/cache.cacheMsgs.commit|index.Index[i:]":                         "i <= len(index.Index) when the pruning loop ends",
+	"x/oracle/keeper/cache.cacheParams.commit|index.Index[i:]":                       "i < len(index.Index) or the index is empty (i == 0) when the pruning loop ends",
+	"x/oracle/keeper/cache.cacheParams.commit|index.Index[i]":                        "inside the loop i+1 < len(index.Index)",
+	"x/oracle/keeper/common.BigIntList.Median|b[l / 2]":                              "called with at least one value: a report exists only after a validator submitted a price, the final median only after the threshold was exceeded",
+	"x/oracle/keeper/common.BigIntList.Median|b[l / 2 - 1]":                          "even length >= 2 on this arm",
+	"x/oracle/keeper.parseBalanceChange|rawData[:32]":                                "UpdateNSTByBalanceChange, the only caller, rejects len(rawData) < 32",
+	"x/oracle/keeper.parseBalanceChange|rawData[32:]":                                "as above",
+	"x/oracle/types.Params.GetTokenInfo|p.Tokens[v.TokenID]":                         "Params.Validate requires every feeder's TokenID to index an existing token",
 }
 
 // audited bounds checks that the compiler reports inside inlined library calls: "function" -> reason
 var c11InlinedAudit = map[string]string{
-	"x/avs/types.GenerateAVSAddr":                             "slices a 32-byte Keccak hash",
-	"x/delegation/keeper.Keeper.GetUndelegationHoldCount":     "decodes an 8-byte value written by the module itself (Uint64ToBigEndian)",
-	"x/dogfood/keeper.Keeper.ExportGenesis":                   "hex encoding of a public key (not on an unrecovered path in practice: export)",
-	"x/oracle/keeper/aggregator.AggregatorContext.FillPrice":  "inlined Params.GetTokenInfo: feeder and token ids validated by Params.Validate",
-	"x/oracle/keeper/aggregator.newWorker":                    "inlined Params.GetTokenInfo: feeder and token ids validated by Params.Validate",
-	"x/oracle/keeper.Keeper.GetPriceTRLatest":                 "decodes the 8-byte next-round id written by the module itself",
-	"x/oracle/keeper.Keeper.GetNextRoundID":                   "decodes the 8-byte next-round id written by the module itself",
+	"x/avs/types.GenerateAVSAddr":                            "slices a 32-byte Keccak hash",
+	"x/delegation/keeper.Keeper.GetUndelegationHoldCount":    "decodes an 8-byte value written by the module itself (Uint64ToBigEndian)",
+	"x/dogfood/keeper.Keeper.ExportGenesis":                  "hex encoding of a public key (not on an unrecovered path in practice: export)",
+	"x/oracle/keeper/aggregator.AggregatorContext.FillPrice": "inlined Params.GetTokenInfo: feeder and token ids validated by Params.Validate",
+	"x/oracle/keeper/aggregator.newWorker":                   "inlined Params.GetTokenInfo: feeder and token ids validated by Params.Validate",
+	"x/oracle/keeper.Keeper.GetPriceTRLatest":                "decodes the 8-byte next-round id written by the module itself",
+	"x/oracle/keeper.Keeper.GetNextRoundID":                  "decodes the 8-byte next-round id written by the module itself",
+	"x/oracle/keeper.Keeper.GetForceSealBlock":               "decodes the 8-byte height written by SetForceSealBlock (Uint64ToBigEndian), the family's only writer",
 }
 
 func c11Bounds(r *Run) {
